@@ -4,12 +4,14 @@ LEVEL = "proof"
 GROUPS = []
 TU = "harness/C07/h_toolutils.c"
 LINK = ["as_endian.c", "bpemu.c"]
-GROUPS.append(G("tu_FilterOK", TU, "h_FilterOK", enforce=["FilterOK"], link=LINK, loops=True, unwind=102, timeout=300))
-GROUPS.append(G("tu_FilterOK_reject", TU, "h_FilterOK_reject", enforce=[], link=LINK, unwind=102, timeout=300, functions=["FilterOK"],
-                bounded="the filter list has at most 100 entries by construction (array size); the reject direction unwinds them all"))
+GROUPS.append(G("tu_FilterOK", TU, "h_FilterOK", enforce=["FilterOK"], link=LINK, loops=True, unwind=258, timeout=300))
+GROUPS.append(G("tu_FilterOK_reject", TU, "h_FilterOK_reject", enforce=[], link=LINK, unwind=258, timeout=300, functions=["FilterOK"],
+                bounded="the filter list has at most 256 entries by construction (array size); the reject direction unwinds them all"))
 GROUPS.append(G("tu_SkipRecord", TU, "h_SkipRecord", enforce=["SkipRecord"], link=LINK, unwind=12, timeout=300, flags=["--signed-overflow-check"]))
 GROUPS.append(G("tu_ReadRecordHeader", TU, "h_ReadRecordHeader", enforce=[], link=LINK, unwind=12, timeout=300, functions=["ReadRecordHeader", "Granularity"]))
 GROUPS.append(G("tu_WriteRecordHeader", TU, "h_WriteRecordHeader", enforce=[], link=LINK, unwind=12, timeout=300, functions=["WriteRecordHeader", "Granularity"]))
+GROUPS.append(G("tu_CMD_FilterList", TU, "h_CMD_FilterList", enforce=[], link=LINK, loops=True, unwind=258, unwindset=["@h_CMD_FilterList:CMD_FilterList:last:2", "@CMD_FilterList:CMD_FilterList:last:2"], timeout=600, dfcc=False, drop_unused=True, functions=["CMD_FilterList"], object_bits=12, defs=["-DVERIF_FILTERLIST"], flags=["--slice-formula"], split=6,
+                bounded="one CPU id per call (the comma loop is unwound once); the id's value is an oracle for the number parser"))
 PB = "harness/C07/h_pbind.c"
 ERRNO = ["-include", "$VERIF/include/verif_errno_shim.h"]
 GROUPS.append(G("pb_ProcessFile_data", PB, "h_ProcessFile_data", enforce=[], replace=[], dfcc=False, drop_unused=True, link=["toolutils.c", "as_endian.c", "bpemu.c"],
